@@ -837,7 +837,9 @@ class _ClassBuilder:
         ):
             cls.__attrs_own_setattr__ = False
 
-            if not self._has_custom_setattr:
+            # Never clobber a __setattr__ from the class body -- whether or not
+            # auto_detect told us to look for it.
+            if not _has_own_attribute(cls, "__setattr__"):
                 cls.__setattr__ = _OBJ_SETATTR
 
         return cls
@@ -863,7 +865,9 @@ class _ClassBuilder:
         if not self._wrote_own_setattr:
             cd["__attrs_own_setattr__"] = False
 
-            if not self._has_custom_setattr:
+            # Never clobber a __setattr__ from the class body -- whether or not
+            # auto_detect told us to look for it.
+            if not _has_own_attribute(self._cls, "__setattr__"):
                 for base_cls in self._cls.__bases__:
                     if base_cls.__dict__.get("__attrs_own_setattr__", False):
                         cd["__setattr__"] = _OBJ_SETATTR
